@@ -136,6 +136,15 @@ def run_on(fb, chk, tag=""):
     if f:
         m = must_of(fb, f)
         ok = any("queue_next_avail" in show(m.sym.arg_terms(bb)[1]) for bb, t, c in sites(f, name="new"))
+        if not ok:
+            # the reply built as a struct literal: read the `num` field of the returned value
+            ret = m.sym.local(0)
+            for alt in (ret[2] if ret[0] == "phi" else [ret]):
+                if alt[0] == "agg" and alt[2] == "Ok" and alt[3]:
+                    pay = alt[3][0][1]
+                    if pay[0] == "agg" and pay[1].endswith("VhostUserVringState"):
+                        d = dict(pay[3])
+                        ok = "queue_next_avail" in show(d.get("num", ("unknown",))) and peel(d.get("index", ("unknown",)))[0][0] == "param"
         chk.check(ok, "Q3", tag + "get_vring_base", "reply <- queue_next_avail()", "GET_VRING_BASE does not return the next-available index", f.loc())
     # ------------------------------------------------------------------ Q4
     f = ch.get("set_features")
